@@ -227,8 +227,29 @@ def u_prox_slope(h, n=2):
     h.ensure('first-order', h.ge(quad_t + s * tangent(val), 0))
 
 
+def u_prox_logsum_convex(h):
+    """LogSumPenalty.prox_1d in the regime sqrt(alpha*step) <= eps, where the prox objective
+    z -> (z - x)^2/2 + alpha*step*log(1 + |z|/eps) is convex (second derivative 1 - a/(eps+|z|)^2 >= 0; stated lemma), so
+    a stationary point is the global minimiser.  Stationarity is ALGEBRAIC: p = 0 needs |x| <= a/eps; p != 0 needs
+    sign(p) = sign(x) and (|p| - |x|)(eps + |p|) + a = 0.  The non-convex regime (threshold = root of a transcendental
+    function located by a 30-step bisection on log terms) is outside what the solver can decide -- see DESIGN 10.6."""
+    Pm = P()
+    x, s, al, eps = h.real('x'), h.real('step'), h.real('alpha'), h.real('eps')
+    h.assume(s > 0, al > 0, eps > 0)
+    a = al * s
+    h.assume(a <= eps * eps)
+    pen = h.penalty(Pm.LogSumPenalty, alpha=al, eps=eps)
+    pr = pen.prox_1d(x, s, 0)
+    h.observe('prox', pr)
+    ap, ax = abs(pr), abs(x)
+    at_zero = h.and_(h.eq(pr, 0), h.le(ax * eps, a))
+    moved = h.and_(h.gt(pr * x, 0), h.eq((ap - ax) * (eps + ap) + a, 0))
+    h.ensure('stationary(convex regime => global minimiser)', h.or_(at_zero, moved))
+
+
 def units(tier):
     us = []
+    us.append(Unit('C07/K/LogSumPenalty/prox_1d[convex regime]', u_prox_logsum_convex, {}, wall_s=90))
     for name in SEP_CONVEX + SEP_NONCONVEX:
         for j in (0, 1):
             if name == 'SCAD':
